@@ -5,6 +5,13 @@ must compile(); every entry of `self.eqs` is read back with Python's ast module 
 precedence applies) and z3 proves it equal to lhs - rhs of the flat equation for ALL values; the
 x / v / p / c / u / y lists must match the flat model's classification; distinct Modelica names must
 mangle to distinct Python identifiers (enumerated names here; symbolic strings in the CrossHair part).
+
+Second observation point (the one the property names: OdeModel.eqs / x / v / p / c / u / y of the EXECUTED module):
+the generated module is executed with the real SymPy, so that Python's own name binding applies (locals of
+__init__ shadow module-level names and builtins, a later assignment rebinds an earlier one, a call resolves its
+callee like any other name).  The SymPy objects found in the lists give symbol -> flat variable (one object per
+variable in every list it appears in, distinct variables / time -> distinct objects) and every entry of `eqs`
+is translated object by object to z3 (`sympy2z3`) and proved equal to lhs - rhs of the flat equation again.
 """
 import itertools
 import sys
@@ -49,6 +56,31 @@ def arith_trees(tier):
     return out
 
 
+CALLS = ["abs", "sin", "cos", "tan"]   # the builtin calls that work in the generated module: Python's own abs + the three imports
+
+
+def call_trees(tier):
+    """Every callable builtin (abs is spelled like a PYTHON builtin, sin/cos/tan like the module's imports) alone, with
+    signed / operator / literal / time / der() arguments, as either operand of every operator, as base and exponent,
+    as divisor, and nested in every other call."""
+    a, b = E.V("a"), E.V("b")
+    ops_ = ["+", "-", "*", "/", "^"]
+    out = []
+    for f in CALLS:
+        c = lambda *x: E.Call(f, *x)
+        out += [c(a), c(E.Un("-", a)), E.Un("-", c(a)), c(E.V("time")), c(E.Call("der", E.V("x"))), c(E.N("2.5")), c(E.Bn("*", E.N("0.1"), a)),
+                E.Bn("^", c(a), E.N("2")), E.Bn("^", E.N("2"), c(a)), E.Bn("^", c(a), c(b)), E.Bn("/", E.N("1"), c(a)),
+                E.Bn("-", a, c(E.Bn("-", a, b))), E.Un("-", c(E.Un("-", E.Bn("*", a, b))))]
+        for o in ops_:
+            out += [c(E.Bn(o, a, b)), E.Bn(o, c(a), b), E.Bn(o, a, c(b))]
+        for g in CALLS:
+            out.append(c(E.Call(g, a)))
+        if tier == "thorough":
+            for o1, o2 in itertools.product(ops_, ops_):
+                out += [E.Bn(o1, c(E.Bn(o2, a, b)), E.V("c")), E.Bn(o1, E.V("c"), c(E.Bn(o2, a, b)))]
+    return out
+
+
 # Real literals as they are spelled in Modelica source.  The generator prints the parsed VALUE, so what matters is
 # how many significant digits / which exponent a value needs: short and long mantissas, values whose Python repr
 # switches to exponent notation (>= 1e16, < 1e-4), integers beyond 2**53, integral floats.
@@ -76,7 +108,9 @@ def literal_trees(tier):
 # role -> (declaration prefix, declaration suffix, equation template or None)
 ROLES = {"state": ("", "", "der({n}) = k0 - {n};"), "state_out": ("output ", "", "der({n}) = k0 - {n};"),
          "out": ("output ", "", "{n} = 2 * q0 + k0;"), "plain": ("", "", "{n} = q0 - k0;"), "in": ("input ", "", None),
-         "par": ("parameter ", " = 2", None), "const": ("constant ", " = 3", None)}
+         "par": ("parameter ", " = 2", None), "const": ("constant ", " = 3", None),
+         # an input whose derivative is used: the flat model makes it input AND state, the template binds its name twice
+         "in_state": ("input ", "", "der({n}) = k0 - {n};")}
 # (long name, a name contained in it): prefix, suffix, inner part, digit / underscore extension
 NAME_PAIRS_QUICK = [("pos", "p"), ("vel", "e"), ("xx", "x")]
 NAME_PAIRS_MORE = [("pos", "os"), ("x1", "x"), ("v_x", "v"), ("k0k", "k0"), ("q0", "q")]
@@ -84,8 +118,8 @@ NAME_PAIRS_MORE = [("pos", "os"), ("x1", "x"), ("v_x", "v"), ("k0k", "k0"), ("q0
 
 def classification_models(tier):
     """Two variables whose names contain one another, in every combination of the roles the SymPy backend
-    distinguishes (state / state+output / output / plain / input / parameter / constant) and both declaration orders,
-    next to a fixed state q0 and parameter k0."""
+    distinguishes (state / state+output / output / plain / input / input+state / parameter / constant) and both
+    declaration orders, next to a fixed state q0 and parameter k0."""
     pairs = NAME_PAIRS_QUICK + (NAME_PAIRS_MORE if tier == "thorough" else [])
     out = []
     for (long_, short), rl, rs, order in itertools.product(pairs, ROLES, ROLES, ("LS", "SL")):
@@ -107,6 +141,7 @@ def classification_models(tier):
 NAME_SINGLES = ["sum", "abs", "len", "max", "id", "int", "print",                       # Python builtins
                 "keys", "get", "pop", "items", "values", "update", "copy", "psi",       # the generator's own clash list
                 "sin", "cos", "OdeModel", "t", "x", "eqs",                              # names the generated module uses itself
+                "tan", "u", "v", "p", "c", "y", "x0", "f", "g", "diff", "Matrix", "symbols", "dynamicsymbols", "division", "M",
                 "_a", "a_", "a__", "x__y", "A", "a1",
                 "lambda", "pass", "is", "None",                                         # Python keywords that are plain Modelica identifiers
                 "self", "sympy", "mech"]                                                # names the class template relies on
@@ -119,6 +154,62 @@ def name_models(tier):
         out.append((f"name:{nm}", f"model M\n  Real {nm};\n  Real zz;\nequation\n  {nm} = 2 * zz;\n  der(zz) = {nm} - zz;\nend M;\n", "M"))
     for a, b in NAME_PAIRS:
         out.append((f"name:{a}+{b}", f"model M\n  Real {a};\n  Real {b};\n  Real zz;\nequation\n  {a} = 2 * zz;\n  {b} = {a} + zz;\n  der(zz) = {b} - {a};\nend M;\n", "M"))
+    return out
+
+
+# ---- name x role x time family ---------------------------------------------------------------------------------
+# The name family above declares plain variables only and never mentions `time`.  What a name may shadow depends on
+# HOW the generated module creates the symbol (states / variables / inputs are functions of t, parameters and constants
+# plain symbols) and on what else the equations refer to (time, an imported function), so here every name takes every
+# role in a model whose equations use time (alone, as factor, as power base, as call argument) and a call.
+NAME_ROLES = {"state": ("", "", "der({n}) = zz - {n} * time;"), "state_out": ("output ", "", "der({n}) = zz - {n} * time;"),
+              "out": ("output ", "", "{n} = 2 * zz + time;"), "plain": ("", "", "{n} = 2 * zz + time;"), "in": ("input ", "", None),
+              "in_state": ("input ", "", "der({n}) = zz - {n} * time;"), "par": ("parameter ", " = 2", None), "const": ("constant ", " = 3", None)}
+ROLE_NAMES_QUICK = ["t", "x", "u", "sin", "abs", "self", "eqs", "psi", "lambda", "a_", "time_", "diff"]
+
+
+def name_role_models(tier):
+    names = ROLE_NAMES_QUICK if tier != "thorough" else ROLE_NAMES_QUICK + [n for n in NAME_SINGLES if n not in ROLE_NAMES_QUICK and n != "M"]
+    out = []
+    for nm, (role, (pre, suf, eq)) in itertools.product(names, NAME_ROLES.items()):
+        f = "cos" if nm != "cos" else "sin"   # a variable called like the function it calls is the callee family's subject
+        eqs = ([eq.format(n=nm)] if eq else []) + [f"der(zz) = {nm} - zz * time;", f"ww = {f}(time) * {nm} + time ^ 2 - time;"]
+        out.append((f"namerole[{nm}:{role}]", f"model M\n  {pre}Real {nm}{suf};\n  Real zz;\n  Real ww;\nequation\n" + "".join(f"  {e}\n" for e in eqs) + "end M;\n", "M"))
+    return out
+
+
+# ---- callee family ---------------------------------------------------------------------------------------------
+# A call's callee is a name like any other in the generated Python: a model variable spelled like the function (or
+# like the escaped function name) lives next to a call of that function.
+def callee_models(tier):
+    roles = ["plain", "par"] + (["state", "in"] if tier == "thorough" else [])
+    out = []
+    for f, var, role in itertools.product(CALLS, ("{f}", "{f}_"), roles):
+        var = var.format(f=f)
+        pre, suf, eq = NAME_ROLES[role]
+        eqs = ([eq.format(n=var)] if eq else []) + [f"der(zz) = {f}(zz) - {var};", f"ww = {var} * {f}({var} + time);"]
+        out.append((f"callee[{f}():{var}:{role}]", f"model M\n  {pre}Real {var}{suf};\n  Real zz;\n  Real ww;\nequation\n" + "".join(f"  {e}\n" for e in eqs) + "end M;\n", "M"))
+    return out
+
+
+# ---- der() family ----------------------------------------------------------------------------------------------
+# der() applied to a plain variable, an output and an INPUT (a feed-forward term), in every position an operand can
+# take, with a second variable of the same role that is not differentiated, declared before or after it.
+DER_USES = {"lhs": ["der({n}) = k0 - q0;"], "rhs": ["w = q0 + k0 * der({n});"], "neg": ["w = -der({n});"], "call": ["w = sin(der({n})) * q0;"],
+            "pow-div": ["w = der({n}) ^ 2 / k0;"], "divisor": ["w = q0 / der({n});"], "twice": ["w = der({n}) + q0;", "w2 = k0 - der({n}) * time;"],
+            "with-value": ["w = {n} * der({n}) - {n};"], "both": ["w = der({n}) - der({m});"]}
+DER_ROLES = {"plain": "", "out": "output ", "in": "input "}
+
+
+def der_models(tier):
+    out = []
+    for (role, pre), (use, eqs), order in itertools.product(DER_ROLES.items(), DER_USES.items(), ("first", "last")):
+        mine = [f"  {pre}Real n1;\n", f"  {pre}Real m1;\n"]
+        if order == "last":
+            mine.reverse()
+        decl = mine[0] + "  Real q0;\n  parameter Real k0 = 2;\n  Real w;\n  Real w2;\n" + mine[1]
+        body = ["der(q0) = k0 - q0 + m1;"] + [e.format(n="n1", m="m1") for e in eqs]
+        out.append((f"der[{role}:{use}:{order}]", "model M\n" + decl + "equation\n" + "".join(f"  {e}\n" for e in body) + "end M;\n", "M"))
     return out
 
 
@@ -151,7 +242,7 @@ def check_module(col, case, text, cls, per_eq_cases=None):
     except SyntaxError as e:
         col.violation(f"{case}:not-python", f"generated module is not valid Python: {e}", {"model_text": text, "generated": src})
         return False
-    err = exec_module(src, cls)
+    real, err = instantiate(src, cls)
     if err:
         # valid syntax but the module cannot be imported / the model class cannot be instantiated (solver stubbed)
         col.violation(f"{case}:exec-raises:{err[0]}", f"generated module compiles but executing it / instantiating {cls} raises {err[0]}: {err[1]}",
@@ -208,6 +299,9 @@ def check_module(col, case, text, cls, per_eq_cases=None):
             want["u"].append(s.name)
         else:
             want["v"].append(s.name)
+        if "state" in pf and "input" in pf:
+            # a differentiated input: the flat model classifies it as input AND state (time-varying, supplied from outside)
+            want["u"].append(s.name)
         if "output" in pf:
             want["y"].append(s.name)
     for cat in want:
@@ -225,7 +319,7 @@ def check_module(col, case, text, cls, per_eq_cases=None):
         ec = per_eq_cases[i] if per_eq_cases else f"{case}:eq{i}"
         col.bump("equations")
         try:
-            got = py2z3(node, names, ref.div, ref.env["time"], der)
+            got = py2z3_abs(node, names, ref.div, ref.env["time"], der)
             want_t = ref.residual(feq)[0]
         except EncodingGap as g:
             col.append("encoding_gaps", f"{ec}: {g}")
@@ -246,24 +340,256 @@ def check_module(col, case, text, cls, per_eq_cases=None):
                 col.note_inconclusive(f"{ec} sat did not replay")
         elif r == "unknown":
             col.note_inconclusive(f"{ec} unknown")
+    if real is not None:
+        check_objects(col, case, text, src, cls, lists, name_of, ref, fc, per_eq_cases, real)
     col.bump("programs")
     return ok
 
 
-def exec_module(src, cls):
+def instantiate(src, cls, evaluate=True):
     """Execute the generated module with the real SymPy and instantiate the class (compute_fg, the solver call,
-    stubbed).  -> None, or (exception type name, message)."""
+    stubbed).  evaluate=False: SymPy's automatic evaluation is switched off while the module runs, so every entry of
+    `eqs` keeps the operator tree the generated code spelled out (same Python name binding, same objects in the lists).
+    -> (instance, None) or (None, (exception type name, message))."""
+    import sympy
     from pymoca.backends.sympy import runtime
     orig = runtime.OdeModel.compute_fg
     runtime.OdeModel.compute_fg = lambda self: None
     try:
         ns = {}
-        exec(compile(src, "<generated>", "exec"), ns)
-        ns[cls]()
+        with sympy.evaluate(evaluate):
+            exec(compile(src, "<generated>", "exec"), ns)
+            return ns[cls](), None
     except Exception as e:
-        return type(e).__name__, str(e)[:120]
+        return None, (type(e).__name__, str(e)[:120])
     finally:
         runtime.OdeModel.compute_fg = orig
+
+
+def exec_module(src, cls):
+    """-> None, or (exception type name, message)."""
+    return instantiate(src, cls)[1]
+
+
+# ---- the executed module: SymPy objects -> z3 -----------------------------------------------------------------
+class ForeignSymbol(Exception):
+    pass
+
+
+def py2z3_abs(node, names, div, time_term, der):
+    """py2z3 with Python's builtin abs() given its meaning (the shared translator knows the imported sin/cos/tan
+    only): innermost calls first, every `abs(e)` becomes a fresh name bound to If(e >= 0, e, -e).  Any other callee
+    spelling (abs_, Abs, ...) stays an unknown function and cannot be proved equal to the flat abs()."""
+    import ast as pyast
+    import copy
+    names = dict(names)
+
+    class Lift(pyast.NodeTransformer):
+        def visit_Call(self, n):
+            self.generic_visit(n)
+            if isinstance(n.func, pyast.Name) and n.func.id == "abs" and "abs" not in names and len(n.args) == 1 and not n.keywords:
+                v = py2z3(n.args[0], names, div, time_term, der)
+                k = "abs#%d" % len(names)
+                names[k] = z3.If(v >= 0, v, -v)
+                return pyast.copy_location(pyast.Name(id=k, ctx=pyast.Load()), n)
+            return n
+
+    if not any(isinstance(n, pyast.Call) and isinstance(n.func, pyast.Name) and n.func.id == "abs" for n in pyast.walk(node)):
+        return py2z3(node, names, div, time_term, der)
+    return py2z3(Lift().visit(copy.deepcopy(node)), names, div, time_term, der)
+
+
+def sympy2z3(expr, terms, ders, time_sym, time_term, div):
+    """An entry of the executed module's `eqs` (a SymPy object, evaluated or unevaluated) -> z3.
+    terms: SymPy symbol object -> z3 term of the flat variable it stands for, ders: the same for its time derivative.
+    Symbols are looked up BY OBJECT, so what a name was bound to when the equation was built is what counts."""
+    import sympy
+    from sympy.core.function import AppliedUndef
+
+    def is_recip(e):
+        return isinstance(e, sympy.Pow) and e.exp == -1
+
+    def cond(c):
+        if c is sympy.true or c is True:
+            return z3.BoolVal(True)
+        if c is sympy.false or c is False:
+            return z3.BoolVal(False)
+        if isinstance(c, sympy.Equality):
+            return go(c.lhs) == go(c.rhs)
+        raise EncodingGap("sympy condition " + type(c).__name__)
+
+    def go(e):
+        if isinstance(e, (bool, int, float)):
+            return ops.const(e)
+        if e in terms:
+            return terms[e]
+        if e == time_sym:
+            return time_term
+        if isinstance(e, sympy.Integer):
+            return ops.const(int(e))
+        if isinstance(e, sympy.Rational):
+            return z3.RealVal(f"{e.p}/{e.q}")
+        if isinstance(e, sympy.Float):
+            if e._prec != 53:
+                raise EncodingGap("sympy Float of precision %d" % e._prec)
+            return ops.const(float(e))
+        if isinstance(e, (sympy.Symbol, AppliedUndef)):
+            raise ForeignSymbol(str(e))
+        if isinstance(e, sympy.Derivative):
+            if e.expr in ders and tuple(e.variable_count) == ((time_sym, 1),):
+                return ders[e.expr]
+            if isinstance(e.expr, (sympy.Symbol, AppliedUndef)) and e.expr not in terms:
+                raise ForeignSymbol(str(e.expr))
+            raise EncodingGap("sympy derivative " + str(e))
+        if isinstance(e, sympy.Add):
+            vs = [go(a) for a in e.args]
+            return sum(vs[1:], vs[0])
+        if isinstance(e, sympy.Mul):
+            if e.args[0] == -1 and len(e.args) > 1:   # how SymPy spells a unary minus
+                return -go(sympy.Mul(*e.args[1:], evaluate=False))
+            num = [go(a) for a in e.args if not is_recip(a)]
+            den = [go(a.base) for a in e.args if is_recip(a)]
+            n = ops.ONE
+            if num:
+                n = num[0]
+                for v in num[1:]:
+                    n = n * v
+            if not den:
+                return n
+            d = den[0]
+            for v in den[1:]:
+                d = d * v
+            return div.div(n, d)
+        if isinstance(e, sympy.Pow):
+            if is_recip(e):
+                return div.div(ops.ONE, go(e.base))
+            return ops.z_pow(go(e.base), go(e.exp))
+        if isinstance(e, sympy.Abs):
+            v = go(e.args[0])
+            return z3.If(v >= 0, v, -v)
+        if isinstance(e, (sympy.sin, sympy.cos, sympy.tan)):
+            return ops.elem(type(e).__name__, go(e.args[0]))
+        if isinstance(e, sympy.Piecewise):   # SymPy's own d/dt bookkeeping when evaluation is off: conditions on numbers
+            r = ops.ZERO
+            for val, c in reversed(e.args):
+                r = z3.If(cond(c), go(val), r)
+            return z3.simplify(r)
+        raise EncodingGap("sympy node " + type(e).__name__)
+
+    return go(expr)
+
+
+def object_maps(inst, lists, name_of, ref):
+    """Symbol objects of an executed instance, matched by position with the identifiers of the generated lists.
+    -> (terms, ders, flat name of each object, problems [(case suffix, text)])."""
+    terms, ders, flat_of, problems = {}, {}, {}, []
+    bound = {}
+    for cat in "xvcpuy":
+        objs = list(getattr(inst, cat))
+        idents = lists.get(cat, [])
+        if len(objs) != len(idents):
+            problems.append((f"objects:{cat}", f"executed list {cat} has {len(objs)} entries, the generated source lists {len(idents)}"))
+            continue
+        for idn, o in zip(idents, objs):
+            flat = name_of.get(idn)
+            if flat is None:
+                continue
+            if idn in bound and bound[idn][0] != o:
+                problems.append((f"rebound:{flat}", f"variable {flat} is the SymPy object {bound[idn][0]!r} in list {bound[idn][1]} and {o!r} in list {cat}"))
+            bound.setdefault(idn, (o, cat))
+            if o in flat_of and flat_of[o] != flat:
+                problems.append((f"object-collision:{flat_of[o]}|{flat}", f"distinct Modelica variables {flat_of[o]} and {flat} are the same SymPy object {o!r}"))
+                continue
+            if o == inst.t:
+                problems.append((f"symbol-is-time:{flat}", f"variable {flat} is the SymPy object {o!r}, which is the model's time symbol"))
+                continue
+            flat_of[o] = flat
+            terms[o] = ref.env[flat]
+            ders[o] = ref.env["der(%s)" % flat]
+    return terms, ders, flat_of, problems
+
+
+def check_objects(col, case, text, src, cls, lists, name_of, ref, fc, per_eq_cases, real):
+    """The executed module (see the module docstring).  `real` is the instance built with SymPy evaluating as usual."""
+    import ast as pyast
+    terms, ders, flat_of, problems = object_maps(real, lists, name_of, ref)
+    seen = set()
+    for suffix, what in problems:
+        if suffix not in seen:
+            seen.add(suffix)
+            col.violation(f"{case}:{suffix}", what, {"model_text": text, "generated": src})
+    col.bump("executed_symbol_objects", len(flat_of))
+    if any(sfx.startswith(("object-collision:", "symbol-is-time:", "objects:")) for sfx in seen):
+        return   # no symbol -> variable map to read the equations with (like a mangling collision at source level)
+    raw, err = instantiate(src, cls, evaluate=False)
+    views = []
+    if raw is not None and len(raw.eqs) == len(real.eqs):
+        t2, d2, _, p2 = object_maps(raw, lists, name_of, ref)
+        if len(p2) == len(problems):
+            views.append((raw, t2, d2))
+    views.append((real, terms, ders))
+    if len(real.eqs) != len(fc.equations):
+        col.violation(f"{case}:n-eqs-executed", f"{len(real.eqs)} executed equations for {len(fc.equations)} flat equations", {"model_text": text, "generated": src})
+        return
+    for i, feq in enumerate(fc.equations):
+        ec = (per_eq_cases[i] if per_eq_cases else f"{case}:eq{i}") + ":executed"
+        col.bump("executed_equations")
+        try:
+            want_t = ref.residual(feq)[0]
+        except EncodingGap as g:
+            col.append("encoding_gaps", f"{ec}: {g}")
+            continue
+        verdict = None
+        for inst, tm, dr in views:
+            try:
+                got = sympy2z3(inst.eqs[i], tm, dr, inst.t, ref.env["time"], ref.div)
+            except ForeignSymbol as f:
+                col.violation(ec + ":foreign-symbol", f"executed equation `{real.eqs[i]}` contains the symbol {f}, which is none of the model's x / v / c / p / u symbols nor time",
+                              {"model_text": text, "generated": src})
+                verdict = "violation"
+                break
+            except EncodingGap as g:
+                verdict = ("gap", str(g))
+                continue
+            if got.get_id() == want_t.get_id():
+                col.count("unsat")
+                verdict = "unsat"
+                break
+            r, m = equiv.check(col, ref.div.nonzero() + [got != want_t])
+            if r == "unsat":
+                verdict = "unsat"
+                break
+            if r == "sat":
+                conf = replay_objects(real, i, flat_of, equiv.point_from_model(m, [got, want_t]), want_t)
+                if conf:
+                    col.violation(ec, f"executed equation `{real.eqs[i]}` (source `{pyast.unparse(lists['eqs'][i])}`) does not equal lhs - rhs of the flat equation",
+                                  {"model_text": text, "executed_equation": str(real.eqs[i]), "detail": conf})
+                    verdict = "violation"
+                    break
+            verdict = ("open", r)
+        if isinstance(verdict, tuple) and verdict[0] == "gap":
+            col.append("encoding_gaps", f"{ec}: {verdict[1]}")
+        elif isinstance(verdict, tuple):
+            col.note_inconclusive(f"{ec} {'sat did not replay' if verdict[1] == 'sat' else verdict[1]}")
+
+
+def replay_objects(inst, idx, flat_of, pt, want_t):
+    """Evaluate entry idx of the really executed `eqs` numerically, substituting the model's own symbol OBJECTS."""
+    import sympy
+    from sympy.core.function import AppliedUndef
+    t = inst.t
+    expr = sympy.sympify(inst.eqs[idx])
+    for p in equiv.perturbations(pt, 0):
+        try:
+            e2 = expr.subs({sympy.Derivative(o, t): p.get("der(%s)" % n, 0.0) for o, n in flat_of.items() if isinstance(o, AppliedUndef)})
+            e2 = e2.subs({o: p.get(n, 0.0) for o, n in flat_of.items()})
+            e2 = e2.subs(t, p.get("time", 0.0))
+            gv = float(e2)
+            wv = float(equiv.z3eval(want_t, pipeline._Default(p)))
+        except Exception:
+            continue
+        if not equiv.close(gv, wv):
+            return {"point": p, "generated": gv, "flat": wv}
     return None
 
 
@@ -374,8 +700,8 @@ def main():
     rep = Report(PROP, args.tier, "translation_validation", args.seed)
     import sympy.physics.mechanics  # noqa: F401  (imported before the workers fork)
     from pymoca.backends.sympy import runtime  # noqa: F401  (pulls in scipy.integrate: seconds, once)
-    ts = arith_trees(args.tier) + literal_trees(args.tier)
-    fam = classification_models(args.tier) + name_models(args.tier)
+    ts = arith_trees(args.tier) + literal_trees(args.tier) + call_trees(args.tier)
+    fam = classification_models(args.tier) + name_models(args.tier) + name_role_models(args.tier) + callee_models(args.tier) + der_models(args.tier)
     items = [("models", fam[i:i + BATCH]) for i in range(0, len(fam), BATCH)]
     items += [("exprs", ts[i:i + BATCH]) for i in range(0, len(ts), BATCH)]
     items += [("model", "classify", CLASSIFY, "M"), ("model", "names", NAMES, "M"),
@@ -385,16 +711,29 @@ def main():
         rep.merge(col)
     cov = rep.coverage
     cov["disagreements_checked"] = rep.queries.get("sat", 0)
-    cov["functions_encoded"] = ["backends.sympy.generator.generate (executed); generated self.eqs entries -> Python ast -> z3 (py2z3)"]
+    cov["functions_encoded"] = ["backends.sympy.generator.generate (executed); generated self.eqs entries -> Python ast -> z3 (py2z3)",
+                                "the generated module executed with the real SymPy (solver call stubbed): eqs entries as SymPy objects -> z3 (sympy2z3), "
+                                "symbols resolved through the objects in self.x / v / c / p / u / y"]
     cov["bounds"] = ("expression trees of depth <= 2 (thorough 3) over + - * / ^, unary minus / plus, der, sin/cos/tan, time, printed with the parentheses Modelica requires; "
+                     f"{len(call_trees(args.tier))} call shapes for each of abs (a Python builtin) / sin / cos / tan (module imports): signed, operator, literal, time, der() arguments, "
+                     "the call as either operand of every operator, as base / exponent / divisor, nested in every other call" + (", under two operator levels" if args.tier == "thorough" else "") + "; "
                      f"{len(LITERALS_QUICK) + (len(LITERALS_MORE) if args.tier == 'thorough' else 0)} numeric literal spellings (1..18 significant digits, exponent forms, values whose repr uses exponent notation" + ("; integers beyond 2**53, the smallest subnormal and the largest double" if args.tier == "thorough" else "") + ") "
                      "alone / negated / as factor, divisor, subtrahend, exponent, call argument, next to der(); variable values unbounded reals; "
                      f"classification: {len(classification_models(args.tier))} models with two variables whose names contain one another ({len(NAME_PAIRS_QUICK) + (len(NAME_PAIRS_MORE) if args.tier == 'thorough' else 0)} name pairs) "
-                     "in all 7x7 role combinations (state, state+output, output, plain, input, parameter, constant) and both declaration orders, plus one hand-written model; "
+                     "in all 8x8 role combinations (state, state+output, output, plain, input, differentiated input = input+state, parameter, constant) and both declaration orders, plus one hand-written model; "
+                     f"der(): {len(der_models(args.tier))} models applying der() to a plain variable / an output / an input in {len(DER_USES)} operand positions (lhs, factor, negated, call argument, power base, divisor, "
+                     "twice, next to the variable's value, next to der() of a sibling) with an undifferentiated sibling of the same role declared before or after; "
                      f"names: {len(NAME_SINGLES)} single names (Python builtins, the generator's clash list, names used by the generated module, underscores, Python keywords, self/sympy/mech) and "
-                     f"{len(NAME_PAIRS)} pairs name / name_ ; every generated module is compiled AND executed / instantiated with the real SymPy (solver call stubbed)")
+                     f"{len(NAME_PAIRS)} pairs name / name_ ; {len(name_role_models(args.tier))} models giving each of {len(name_role_models(args.tier)) // len(NAME_ROLES)} names every one of {len(NAME_ROLES)} roles in equations that use time "
+                     "(factor, power base, call argument, alone) and a call; "
+                     f"{len(callee_models(args.tier))} models with a variable spelled like a called function or its escaped name (f / f_ for abs, sin, cos, tan) as plain variable / parameter" + (" / state / input" if args.tier == "thorough" else "") + "; "
+                     "every generated module is compiled AND executed / instantiated with the real SymPy (solver call stubbed); every equation is proved twice: from the generated source text and from the "
+                     "SymPy object the executed module built (automatic evaluation off, falling back to the evaluated object), with one SymPy object per variable across the lists and none equal to another variable's or to time")
     rep.assumptions += ["Python's ast module gives the precedence SymPy will see", "sin/cos/pow uninterpreted; divisors non-zero",
-                        "builtin calls are limited to what the generated module imports (sin, cos, tan): exp/sqrt/log/... are printed as bare calls without an import (NameError on execution) and are treated as outside the backend's subset",
+                        "builtin calls are limited to what the generated module imports (sin, cos, tan) plus abs (Python's builtin, which SymPy objects support): exp/sqrt/log/... are printed as bare calls without an import "
+                        "(NameError on execution), min/max reach Python's builtins, which cannot compare SymPy objects (TypeError); both are treated as outside the backend's subset",
+                        "der() of a parameter / constant is not enumerated (Modelica defines it as 0; the flat reference keeps it as a free term)",
+                        "the executed-module view runs the generated code under sympy.evaluate(False) to keep the operator tree (same name binding, same symbol objects); SymPy's automatic evaluation itself is trusted",
                         "a sat answer is reported only if it replays numerically (atol 1e-9 + rtol 1e-9): a wrong literal that is tiny in absolute terms shows up through the a / literal and a * literal positions"]
     if not cov.get("equations"):
         rep.harness_error("nothing compared")
